@@ -222,11 +222,30 @@ def check_plain_one(op, xs):
         judge(op, ys, r2.items, dict(ctx, second_use=True))
 
 
+def is_hashable(x):
+    try:
+        hash(x)
+        return True
+    except TypeError:
+        return False
+
+
 def check_store_one(op, xs):
     ctx = {'op': op, 'mode': 'store'}
     r = drive.store(xs, [build(op)])
     H.require_clean(r, 'with_memory_store ' + op[0], input=xs, **ctx)
     judge(op, xs, r.items, dict(ctx))
+    # ONE operator object at two places of one pipeline (dedup, stage, dedup again): each place has a state of its own, as two
+    # objects built with the same arguments have
+    if op[0] != 'distinct' or all(is_hashable(x) for x in r.items):
+        o = build(op)
+        two = drive.store(xs, [o, rs.ops.identity(), o])
+        ref = drive.store(xs, [build(op), rs.ops.identity(), build(op)])
+        if ref.ok:
+            H.require_clean(two, 'one %s operator object at two places of a pipeline' % op[0], input=xs, **ctx)
+            if not cmp.same_seq(two.items, ref.items, approx=False):
+                raise Violation('one %s operator object used at two places of a pipeline differs from two objects' % op[0],
+                                input=xs, one_object=two.items, two_objects=ref.items, **ctx)
 
 
 def big_batch_enum():
